@@ -185,6 +185,27 @@ func (eng *Engine) buildIntercepts() {
 		}()
 		return res
 	}
+	// Bounded(f): runs f under the engine's loop / step budget; false if the budget is exceeded (a loop whose
+	// trip count is driven by the symbolic input). Natively: false if f does not return within 5 seconds.
+	ic[envPkg+".Bounded"] = func(ex *Exec, caller *frame, fn *ssa.Function, args []Value) (res Value) {
+		res = ex.tt.True
+		func() {
+			defer func() {
+				if r := recover(); r != nil {
+					if pa, ok := r.(pathAbort); ok && (pa.status == "unwind" || pa.status == "budget") {
+						ex.trace = append(ex.trace, "Bounded: "+pa.msg)
+						ex.boundedHit = true
+						res = ex.tt.False
+						return
+					}
+					panic(r)
+				}
+			}()
+			ex.call(caller, args[0], nil, 0)
+		}()
+		return res
+	}
+	ic[envPkg+".RunUntilParked"] = ic[envPkg+".Catch"]
 	boolOp := func(f func(tt *TermTable, a, b *Term) *Term) interceptFn {
 		return func(ex *Exec, caller *frame, fn *ssa.Function, args []Value) Value {
 			return f(ex.tt, args[0].(*Term), args[1].(*Term))
